@@ -53,7 +53,6 @@ func stripLoad(v ssa.Value) ssa.Value {
 	return v
 }
 
-
 // ruleValidKeyAgreesWithParse: Recover's table rebuild copies an entry only if validInternalKey
 // accepts its key, while the scan that counted the entry used parseInternalKey. The two must accept
 // the same keys: validInternalKey delegates to parseInternalKey, or applies the same length
